@@ -8,7 +8,7 @@ from vtlengine.DataTypes import (
     binary_implicit_promotion,
 )
 from vtlengine.Exceptions import SemanticError
-from vtlengine.Model import DataComponent, Dataset, Role, Scalar
+from vtlengine.Model import Component, DataComponent, Dataset, Role, Scalar
 from vtlengine.Operators import Binary, Operator
 from vtlengine.Utils.__Virtual_Assets import VirtualCounter
 
@@ -107,6 +107,14 @@ class If(Operator):
         result_components = {comp_name: copy(comp) for comp_name, comp in left.components.items()}
         for comp_name, data_type in promoted.items():
             result_components[comp_name].data_type = data_type
+        if isinstance(right, Dataset):
+            # a null of the else branch reaches the result as well
+            for comp_name, comp in list(result_components.items()):
+                else_comp = right.components.get(comp_name)
+                if comp.role != Role.IDENTIFIER and else_comp is not None and else_comp.nullable:
+                    result_components[comp_name] = Component(
+                        name=comp.name, data_type=comp.data_type, role=comp.role, nullable=True
+                    )
         return Dataset(name=dataset_name, components=result_components, data=None)
 
 
